@@ -78,7 +78,8 @@ THEOREMS = ["Okane.C07.C07_total", "Okane.C07.C07_closed_form", "Okane.C07.C07_r
             "Okane.LiteralPositions.C07_positions_ledger", "Okane.LiteralPositions.C07_positions_priceDb"]
 
 ALPHABET = "0159,.-"
-POSITIONS = ["amount", "paren", "neg", "cost", "total", "lot", "lottotal", "balance", "balonly", "format", "pricedb"]
+POSITIONS = ["amount", "paren", "neg", "cost", "total", "lot", "lottotal", "balance", "balonly", "format", "pricedb",
+             "bare", "barebal", "factor"]   # the last three: numbers written without a commodity
 
 # ---------------------------------------------------------------------------------------------
 # the property's statement, written a third time (python, regular expression) — independent of Lean and Rust
@@ -177,7 +178,8 @@ def oracle_pos(pos, s, rec):
         if msg:
             return msg
         printed = dec(DEC.match(base).group(5))
-        if (printed + " USD") not in dec(fmt):
+        echo = {"bare": printed + "\n", "barebal": "= " + printed + "\n", "factor": "(" + printed + " * 2 USD)"}.get(pos, printed + " USD")
+        if echo not in dec(fmt):
             return "formatted entry does not echo the literal %r: %r" % (printed, dec(fmt))
     return None
 
@@ -257,7 +259,7 @@ def run(chk):
     chk.rule = ("lit: every string over {0,1,5,9,',','.','-'} up to length 6 (quick) / 7 (thorough) + random literals of up to 45 digits "
                 "(plain / grouped / leading zeros / 0-45 decimal places / around 2^96, 10^28, 2^127; 25% mutated: stray or missing "
                 "separator, incomplete group, trailing or leading junk incl. non-ASCII) through PrettyDecimal::from_str + to_string; "
-                "pos: every string up to length 3 (quick) / 4 (thorough) + random ones embedded in 11 syntactic positions through the real "
+                "pos: every string up to length 3 (quick) / 4 (thorough) + random ones embedded in 14 syntactic positions (three of them without a commodity) through the real "
                 "ledger parser / price-db loader. Distinct = distinct (stream, position, text); non-trivial = contains a digit.")
     chk.assumptions = ["rust_decimal Display / rescale / try_from_i128_with_scale and winnow take_while / try_map semantics are modelled from "
                        "their sources (validated by this correspondence only)",
@@ -327,7 +329,7 @@ def run(chk):
         chk.violation("c07 pos stream: tools returned %d/%d records for %d cases" % (len(pimpl), len(pmodel), len(plines)),
                       {"stream": "pos"}, no_failing_input=True, tag="corr")
         return
-    chk.streams["pos:11 positions x literals"] = len(plines)
+    chk.streams["pos:14 positions x literals"] = len(plines)
     for (p, s), a, b in zip(pcases, pimpl, pmodel):
         chk.case(("pos", p, s), nontrivial=any(c.isdigit() for c in s))
         chk.traces += 1
